@@ -190,7 +190,7 @@ func c13Judge(in toolInput, kind string, c *tooldriver.Case, o outcome, base *ou
 	}
 	noOutputExpected := hasFlag(in, "-x")
 	debug := hasFlag(in, "-debug")
-	faultFree := kind == "base" || kind == "twin" || kind == "short" || kind == "opttwin" || kind == "cachetwin"
+	faultFree := kind == "base" || kind == "twin" || kind == "short" || kind == "opttwin" || kind == "cachetwin" || kind == "paths"
 	if run.Exit != 0 && run.Stderr.Len == 0 && c.Faults.ErrWriteErrAt < 0 {
 		return "silent-failure", fmt.Sprintf("exit status %d without any diagnostic on stderr", run.Exit)
 	}
@@ -261,6 +261,19 @@ func c13Judge(in toolInput, kind string, c *tooldriver.Case, o outcome, base *ou
 		}
 		if !debug && run.Exit == 0 && !noOutputExpected && outSum(run) != outSum(b) {
 			return "delivery-dependent-output", "generated bytes differ between stdin/file or stdout/-o delivery"
+		}
+	case "paths":
+		// the grammar under another name, the output at another place: where -o
+		// names something a file can be created at, verdict and bytes are those
+		// of the base run; an existing directory is the tool's to refuse or to
+		// fill (the general rules above apply)
+		if len(c.Dirs) == 0 {
+			if run.Exit != b.Exit {
+				return "path-dependent-verdict", fmt.Sprintf("exit %d, but %d with the grammar and the output under other names", b.Exit, run.Exit)
+			}
+			if !debug && run.Exit == 0 && !noOutputExpected && outSum(run) != outSum(b) {
+				return "path-dependent-output", "generated bytes differ with the grammar and the output under other names"
+			}
 		}
 	case "short":
 		if runSignature(run) != runSignature(b) {
@@ -382,6 +395,28 @@ func runC13(tier string) int {
 			c := makeCase(fmt.Sprintf("cachetwin-%d", i), in2, d, simos.NoFaults(), simmap.Asc, 0, 1)
 			c.StepCap = stepCapFor(len(in.Grammar))
 			varJobs = append(varJobs, job{i, c13Variant{"cachetwin", c}})
+		}
+		if i%2 == 0 {
+			// the grammar under a name without a dot, in a directory, with two dots;
+			// -o naming an existing directory, a name without extension, a place
+			// in a directory that does not exist yet
+			dd := delivery{viaFile: true, outFile: true}
+			dd.inName = r.pick([]string{"Pegfile", "g", "dir.d/grammar", "grammar.v2.peg", ".peg", "src/calc.peg", "grammar.peg"})
+			switch r.intn(6) {
+			case 0:
+				dd.outArg, dd.dirs = "out", []string{"out"}
+			case 1:
+				dd.outArg, dd.dirs = "gen.d", []string{"gen.d"}
+			case 2:
+				dd.outArg, dd.dirs = ".", []string{"."}
+			case 3:
+				dd.outArg = "parser"
+			case 4:
+				dd.outArg = "a.b/c.d/parser.gen.go"
+			default:
+				dd.outArg = "out/parser.go"
+			}
+			add("paths", dd, simos.NoFaults())
 		}
 		if contains(in.Flags, "-optimize-grammar") {
 			// -optimize-grammar only rewrites the grammar: the same run without
@@ -781,12 +816,16 @@ func removeArgs(args []string, flag string, n int) []string {
 }
 
 func setGrammar(c *tooldriver.Case, g []byte) {
-	if contains(c.Args, "grammar.peg") {
+	name := c.GrammarFile
+	if name == "" && contains(c.Args, "grammar.peg") {
+		name = "grammar.peg"
+	}
+	if name != "" {
 		files := map[string][]byte{}
 		for k, v := range c.Files {
 			files[k] = v
 		}
-		files["grammar.peg"] = g
+		files[name] = g
 		c.Files = files
 	} else {
 		c.Stdin = g
